@@ -2,7 +2,7 @@
     class (each confirmed on the real code by harness/src/bin/c33.rs), and the follow-on panics. *)
 From Coq Require Import List ZArith Bool Arith Lia.
 From VibeSQL Require Import Store.Catalog Store.CatalogBase Store.CatalogInv Store.CatalogIdx
-  Store.CatalogStepA Store.CatalogStepB Store.CatalogLaws.
+  Store.CatalogStepA Store.CatalogStepB Store.CatalogLaws Store.CatalogSites.
 Import ListNotations.
 Open Scope Z_scope.
 
@@ -198,6 +198,20 @@ Proof.
   eexists. repeat split; vm_compute; reflexivity.
 Qed.
 
+(** CHANGE A E, CHANGE B A, then CHANGE A B: the cache still maps "A" to position 0, so the column now
+    called E is renamed and the column called A is not *)
+Theorem retained_column_alter_refuted :
+  exists h, let s := run h init in
+    (exists tb, alookup (qual public nT0) (s_tabs s) = Some tb /\ col_names (t_schema tb) = [[69]; nA]) /\
+    snd (step s (ChangeColumn nT0 nA (mkcol nB true None))) = ROk 0 /\
+    exists tb', alookup (qual public nT0) (s_tabs (step_state s (ChangeColumn nT0 nA (mkcol nB true None)))) = Some tb' /\
+                col_names (t_schema tb') = [nB; nA].
+Proof.
+  exists [mkT0; ChangeColumn nT0 nA (mkcol [69] true None); ChangeColumn nT0 nB (mkcol nA true None)].
+  cbn zeta. split; [eexists; split; vm_compute; reflexivity|]. split; [vm_compute; reflexivity|].
+  eexists. split; vm_compute; reflexivity.
+Qed.
+
 (** non-default mode ([set_case_sensitive_identifiers(false)]): CREATE INDEX stores the table name as
     written ("t0"), INSERT passes "T0": the index is not maintained *)
 Theorem case_insensitive_mode_mirror_refuted :
@@ -216,3 +230,37 @@ Example agree_nontrivial :
             RenameTable nt0 nT1; Truncate nT0; DropTable nT0 false; mkT0] in
   clean h init /\ results h init = [ROk 0; ROk 2; ROk 0; ROk 0; ROk 0; ROk 1; ROk 0; ROk 0; ROk 0; ROk 1; ROk 0; ROk 0].
 Proof. cbn zeta. split; [clean_hist | vm_compute; reflexivity]. Qed.
+
+(** the hypotheses of the derived theorems are satisfiable by non-trivial states *)
+Definition s_demo : state := run [mkT0; Insert nT0 [[1; 10]; [2; 20]]; mkIX] init.
+
+Example demo_agrees : Agree s_demo.
+Proof. apply agree_history. clean_hist. Qed.
+
+Example drop_leaves_nothing_hyps :
+  wf_qname nT0 = true /\ known s_demo (DropTable nT0 false) = false /\ cat_table_exists s_demo nT0 = true /\
+  table_indexed s_demo nT0 = true.
+Proof. repeat split; vm_compute; reflexivity. Qed.
+
+Example recreate_is_empty_hyps :
+  let s := step_state s_demo (DropTable nT0 false) in
+  wf_qname nT0 = true /\ is_ok (snd (step s mkT0)) = true.
+Proof. cbn zeta. split; vm_compute; reflexivity. Qed.
+
+Example listed_queryable_hyps : exists sc, alookup nT0 (s_cat s_demo) = Some sc /\ length (ts_cols sc) = 2%nat.
+Proof. eexists. split; vm_compute; reflexivity. Qed.
+
+Example retained_hyps : exists tb, tab_find_key s_demo nT0 = Some nqT0 /\ alookup nqT0 (s_tabs s_demo) = Some tb /\
+  t_rows tb = [[Some 1; Some 10]; [Some 2; Some 20]] /\ column_alter (SetDefault nT0 nB 7) = Some (nT0, nB).
+Proof. eexists. repeat split; vm_compute; reflexivity. Qed.
+
+Example rename_moves_all_rows_hyps :
+  let s := run [mkT0; Insert nT0 [[1; 10]; [2; 20]]] init in
+  exists sc, wf_name nT0 = true /\ wf_name nT1 = true /\ known s (RenameTable nT0 nT1) = false /\
+    alookup nT0 (s_cat s) = Some sc /\ tab_find_key s nT1 = None /\
+    alookup (qual public nT0) (s_tabs s) = Some (mktab sc [[Some 1; Some 10]; [Some 2; Some 20]]) /\
+    forallb (not_null_ok (ts_cols sc)) [[Some 1; Some 10]; [Some 2; Some 20]] = true.
+Proof. cbn zeta. eexists. repeat split; vm_compute; reflexivity. Qed.
+
+Example consistent_sound_hyps : consistent DeleteRebuild = true /\ accepts_name (site_syntax DeleteRebuild) nT0.
+Proof. split; reflexivity. Qed.
